@@ -65,6 +65,7 @@ IMPLIED_BLOCK_IDENTIFIER = frozenset([
     'FOR',
     'WHILE',
     'IF',
+    'WITH',
 ])
 
 
